@@ -124,6 +124,9 @@ def run(cx):
         rets = [cn.c(norm(P.rvalue(st['rv'], b, i, 0))) for b, i, st in fn.stmts() if st['k'] == 'assign' and st['lhs']['l'] == 0 and not st['lhs']['p']]
         acc = 'phi(0 | BitXor(phi(0 | var:t@loop), find_word(%s, %s)))' % (KS, I)
         want = 'BitXor(BitXor(%s, find_word(%s, ($ilen as usize))), find_word(%s, MulWithOverflow(32, (SubWithOverflow(AddWithOverflow(%s, 2).0, 1).0 as usize)).0))' % (acc, KS, KS, CE)
+        # the accumulator is identified by its role, not by its name
+        import re as _re3
+        rets = [_re3.sub(r'var:\w+@loop', 'var:t@loop', r_) for r_ in rets]
         cx.add('I-EIA', 'gen_mac/final', rets == [want], 'MAC = T xor z[LENGTH] xor z[32*(L-1)], T = xor of z[i] over the processed bits: %s' % [FR.short(r, 200) for r in rets], fn.loc())
         sw = [(p, cn) for _, p, _, _ in G.bool_switches(fn, P)]
         bit = 'BitAnd($m[Shr(%s, 5)], Shl(1, SubWithOverflow(31, BitAnd(%s, 31)).0))' % (I, I)
